@@ -3,6 +3,8 @@
 `schemas(draft)` gives *well-meant* reference-free schemas (keyword values of the
 shapes the draft prescribes); `liberal(draft)` also draws degenerate / odd
 values and arbitrary JSON for keyword values (for C03 / C11)."""
+import functools
+
 from hypothesis import strategies as st
 
 from . import values as V
@@ -43,7 +45,7 @@ def keyword_strategies(d, sub, types=None, inst=None):
         "items": st.one_of(subo, st.lists(subo, min_size=(1 if d == 4 else 0), max_size=3)),
         "additionalItems": st.one_of(st.booleans(), subo),
         "properties": st.dictionaries(keys, subo, max_size=3),
-        "patternProperties": st.dictionaries(V.patterns, subo, max_size=3),
+        "patternProperties": st.dictionaries(V.pp_patterns, subo, max_size=3),
         "additionalProperties": st.one_of(st.booleans(), subo),
     }
     if d == 4:
@@ -138,6 +140,7 @@ def schema_object(d, sub, kwfun=keyword_strategies, max_kw=5):
     return obj()
 
 
+@functools.lru_cache(maxsize=None)
 def schemas(d, max_leaves=8, kwfun=keyword_strategies):
     base = st.one_of(st.booleans(), st.just(None)) if d >= 6 else st.just(None)
     base = base.map(lambda b: {} if b is None else b)
@@ -149,6 +152,7 @@ def schemas(d, max_leaves=8, kwfun=keyword_strategies):
     return st.recursive(base, level, max_leaves=max_leaves)
 
 
+@functools.lru_cache(maxsize=None)
 def root_schemas(d, max_leaves=8, kwfun=keyword_strategies):
     """Schemas whose root is an object with at least one keyword (most of the time)."""
     sub = schemas(d, max_leaves, kwfun)
@@ -190,5 +194,6 @@ def liberal_keyword_strategies(d, sub):
     return out
 
 
+@functools.lru_cache(maxsize=None)
 def liberal(d, max_leaves=6):
     return root_schemas(d, max_leaves, liberal_keyword_strategies)
